@@ -49,6 +49,9 @@ pub(crate) struct FoldFSM {
     ctor_queue: SubTraceLoreCtorQueue,
     result_lore: FoldLore,
     state_handler: CtxStateHandler,
+    /// Verification hook: states of "after" subtraces that were left unconsumed when their iteration ended.
+    #[cfg(aquavm_verif)]
+    verif_after_states_unconsumed: u64,
 }
 
 impl FoldFSM {
@@ -112,6 +115,11 @@ impl FoldFSM {
             apply_fold_lore_after(data_keeper, prev_lore, current_lore)?;
             self.ctor_queue.start_back_traverse();
         } else {
+            #[cfg(aquavm_verif)]
+            {
+                self.verif_after_states_unconsumed +=
+                    data_keeper.prev_slider().subtrace_len() as u64 + data_keeper.current_slider().subtrace_len() as u64;
+            }
             ctor.after_end(data_keeper);
             if !self.ctor_queue.traverse_back() {
                 // a script could run the next of a fold more than once per iteration,
@@ -133,11 +141,23 @@ impl FoldFSM {
     }
 
     pub(crate) fn meet_generation_end(&mut self, data_keeper: &DataKeeper) {
+        #[cfg(aquavm_verif)]
+        if self.ctor_queue.back_traversal_started() {
+            self.verif_after_states_unconsumed +=
+                data_keeper.prev_slider().subtrace_len() as u64 + data_keeper.current_slider().subtrace_len() as u64;
+        }
         self.ctor_queue.finish(data_keeper);
         self.ctor_queue.end_back_traverse();
 
         let fold_lore = self.ctor_queue.transform_to_lore();
         self.result_lore.extend(fold_lore);
+    }
+
+    /// States recorded after the next of an iteration in the previous/current data (i.e. by the last
+    /// instruction of the fold) that this run has left unconsumed when the iteration ended.
+    #[cfg(aquavm_verif)]
+    pub(crate) fn verif_after_states_unconsumed(&self) -> u64 {
+        self.verif_after_states_unconsumed
     }
 
     /// Fold lore taken from the previous and the current data that no iteration has claimed so far:
